@@ -46,7 +46,7 @@ impl Prop for P {
         }
     }
     fn cases(tier: Tier) -> u64 {
-        tier.pick(50_000, 500_000)
+        tier.pick(70_000, 700_000)
     }
     fn strategy(tier: Tier) -> BoxedStrategy<Case> {
         let maxseg = tier.pick(20_000u32, 60_000);
